@@ -120,6 +120,14 @@ MUTS = [
     ('SG5', 'preserve', 'C15', Q, "ret = '' if self.subset_slice is None else '@{}'.format(self.slice_to_str(self.subset_slice))",
      "ret = '@{}'.format(self.slice_to_str(self.subset_slice)) if self.subset_slice is not None else ''"),
     ('SG6', 'unsupported', 'C15', Q, "return '[{}]'.format(slc) if not", "return '[%s]' % slc if not"),
+    # descriptors.py __str__ of the decoded descriptors (round 2)
+    ('SH1', 'change', 'C16', D, "return 'A{:05d}'.format(self.id)", "return 'A{:06d}'.format(self.id)"),
+    ('SH2', 'change', 'C01', D, "        return '{:06d}'.format(self.id)", "        return '{:05d}'.format(self.id)"),
+    ('SH3', 'change', 'C16', D, "    224255: 'F',", "    224255: 'D',"),
+    ('SH4', 'change', 'C09', D, "return 'S{:05d}'.format(self.id)", "return 's{:05d}'.format(self.id)"),
+    ('SH5', 'change', 'C16', D, "marker_descriptor_prefix.get(self.marker_id, 'M'),", "marker_descriptor_prefix.get(self.marker_id, 'X'),"),
+    ('SH6', 'preserve', 'C16', D, "return 'A{:05d}'.format(self.id)", "return 'A' + '{:05d}'.format(self.id)"),
+    ('SH7', 'unsupported', 'C01', D, "        return '{:06d}'.format(self.id)", "        return '%06d' % self.id"),
     # ---- stage D: the whole NodePathParser of dataquery.py (stateful class, C15_src_parse_eq) ----------------
     ('D1', 'change', 'C15', Q, "                if self.current_state == STATE_START_PARSING:\n                    self.current_state = STATE_START_SUBSET\n",
      "                if True:\n                    self.current_state = STATE_START_SUBSET\n"),
